@@ -11,6 +11,7 @@ def register(db):
     register_parser_ns_map(db)
     register_xsi_cache(db)
     register_find_subclass(db)
+    register_memo(db)
     P = ["C14"]
     # ------------------------------------------------------------------ memoised wildcard matching
     M = "uf('match_ns', 'bool', self.namespaces, {q})"
@@ -235,3 +236,29 @@ def register_find_subclass(db):
         loops=[Loop(invariants=[], header="types"), Loop(invariants=[], header="tp.__mro__")],
         properties=["C14"],
     ))
+
+
+def register_memo(db):
+    """Cache-key adequacy of every memoised function found in the repository source on this run (pyvc/memo.py): equal
+    keys (Python ==) must give the same result, otherwise what a call returns depends on which of two equal values the
+    process saw first."""
+    from pyvc import memo
+
+    _, specs, inventory = memo.harness_module()
+    db.memo_inventory = inventory
+    for sp in specs:
+        if sp["sorts"] is None:
+            db.add(Contract(f"verif_memo:{sp['name']}", params={}, ensures=[], raises={}, properties=["C14"],
+                            note=f"memoised function {sp['function']}: {sp['reason']} - key adequacy cannot be established"))
+            continue
+        db.inline.add(sp["function"])
+        s1, s2 = sp["sorts"]
+        db.add(Contract(
+            f"verif_memo:{sp['name']}",
+            params={"a": s1, "b": s2, **{n: srt for n, srt in sp["others"]}},
+            requires=["a == b"],
+            ensures=[("equal-keys-give-the-same-result", "result[0] == result[1]")],
+            raises={}, properties=["C14"],
+            note=f"memoised function {sp['function']}: parameter {sp['param']} admits {sp['types'][0]} and {sp['types'][1]}; "
+                 f"equal values of the two types share one cache entry",
+        ))
